@@ -54,7 +54,7 @@ def finding_key(c, r):
 
 LEVEL_TEXT = ("Theorems (Props/C13.v): boosts never add or remove a candidate (answers with and without boosts contain the same commands at a limit that cuts nothing, "
               "NLP on or off), the accumulator's documents are the candidates whatever the boosts, a command without the boosted word keeps exactly its score; for the "
-              "directory analyzer (Model/Context.v): every project type is reported at most once for every listing, 'generic' is reported exactly when no entry is recognised "
+              "directory analyzer (Model/Context.v): the analysis is a function of the SET of names (entries are read in file-name order, so any creation / storage / enumeration order gives the same types in the same order); every project type is reported at most once for every listing, 'generic' is reported exactly when no entry is recognised "
               "and is then the whole answer, every other reported type comes from an entry that carries it and every such type is reported, and every value of the boost map "
               "(project tables, package scripts, make targets, any combination) is finite and at least 1. Tied by the engine correspondence (boost / no-boost pairs) and by "
               "running AnalyzeDirectory / GetContextBoosts on generated directories (each marker name alone on every run, then combinations, arbitrary Makefile and package.json text).")
